@@ -211,7 +211,10 @@ fn run_app_scenario(out: &mut Out, scn: &Value, tag: usize) {
     };
     let alone_cfg = json!({"parallelism": 1, "response_persistence_policy": "persist_response_in_memory", "response_output_policy": alone_policy});
     for q in &queries {
-        let r = app.run(vec![q.clone()], Some(&alone_cfg));
+        // with state shared between queries (the energy model's prediction cache) "alone" means alone in an application
+        // that has served nothing else: a fresh one per query
+        let fresh = if scn["energy"].as_bool().unwrap_or(false) { build_app(&files).ok() } else { None };
+        let r = fresh.as_ref().unwrap_or(&app).run(vec![q.clone()], Some(&alone_cfg));
         let items: Vec<Value> = match &r {
             Ok(rs) => rs.iter().map(|x| item_of(&qmap, x)).collect(),
             Err(_) => vec![],
